@@ -385,6 +385,25 @@ impl<'de> Deserialize<'de> for MemberKind {
     }
 }
 
+/// Verification hooks: accessors for the `encodeType` string and the
+/// parse/print image of a member type.
+#[cfg(feature = "verif-hooks")]
+pub mod verif {
+    use super::{MemberKind, Types};
+    use anyhow::Result;
+
+    /// Returns the EIP-712 `encodeType` string of `name` for a JSON `types` object.
+    pub fn encode_type(types_json: &str, name: &str) -> Result<String> {
+        serde_json::from_str::<Types>(types_json)?.encode_type(name)
+    }
+
+    /// Parses a member type and formats the result (debug form and display form).
+    pub fn member_kind_image(value: &str) -> String {
+        let kind = MemberKind::from_str(value);
+        format!("{kind:?} | {kind}")
+    }
+}
+
 #[cfg(test)]
 mod tests {
     use super::*;
